@@ -192,7 +192,12 @@ func Verif_C01_promise() {
 		verifAssert(t1 == t0+1 && a1 == a0+1, "Accept: exactly one success is recorded")
 		verifReach("accept")
 	} else {
-		p.Reject("reason")
+		// any reason text, also the empty one (a caller with nothing to say still reports a failure)
+		reason := verifString("reason", 2)
+		p.Reject(reason)
+		if len(reason) == 0 {
+			verifReach("reject-empty-reason")
+		}
 		a1, t1 := gb.history()
 		verifAssert(t1 == t0+1 && a1 == a0, "Reject: exactly one failure is recorded")
 		verifReach("reject")
